@@ -102,6 +102,9 @@ def run_check(prop: str, tier: str, seed: int, replay: str | None = None) -> int
             j.setdefault("nshards", 1)
             j.setdefault("part", "")
             j.setdefault("params", {})
+    only = os.environ.get("YV_ONLY_VARIANT")  # debugging aid: restrict a run to one build variant
+    if only:
+        jobs = [j for j in jobs if j["variant"] == only]
     variants = sorted({j["variant"] for j in jobs})
     default_timeout = 900 if tier == "quick" else 7200
     inconclusive = []
